@@ -223,7 +223,12 @@ def gen_document(rng, path: str, *, hostile_ids: bool = False, stem_marker: floa
                 feats.add("rule_defined_stoichiometry")
             else:
                 sr.setConstant(True)
-                sr.setStoichiometry(rng.choice([1, 1, 2, 1.5]))
+                st_p = rng.choice([1, 1, 2, 1.5])
+                if rng.random() < 0.12:
+                    # a trace by-product: a coefficient far below one is a coefficient all the same
+                    st_p = rng.choice([2.5e-10, 7.5e-11])
+                    feats.add("stoichiometry_far_below_one")
+                sr.setStoichiometry(st_p)
         if boundary and rng.random() < 0.5:
             sr = rx.createProduct()
             sr.setSpecies("Sb")
